@@ -28,8 +28,9 @@ def main(argv=None):
     torch.set_num_threads(1)
     import agilerl
 
-    if not os.path.realpath(agilerl.__file__).startswith("/repo/"):
-        print(f"HARNESS-ERROR: agilerl imported from {agilerl.__file__}, not /repo", flush=True)
+    repo = os.path.realpath(os.environ.get("VERIF_REPO", "/repo")).rstrip("/") + "/"
+    if not os.path.realpath(agilerl.__file__).startswith(repo):
+        print(f"HARNESS-ERROR: agilerl imported from {agilerl.__file__}, not {repo}", flush=True)
         return 2
     try:
         mod = importlib.import_module(f"mcx.props.{prop.lower()}")
